@@ -23,6 +23,8 @@ def corpus():
         "pool.script 2 0 t5;s;t3;s;f2;s",
         "pool.script 1 0 P;t1;Q;t3;p;s",                 # supersede while a worker is mid-pickup
         "pool.script 2 3 t2;s;t4;s;f2;s",
+        "pool.script 2 2 t2;s;t3;s;t1;s;f2;s",           # the last id has been handed out but nothing has been refused yet: superseded requests are still drops
+        "pool.script 3 3 t3;s;t5;s;x",                   # … and so are the ones drained at stop
         "pool.script 3 0 t1;s;t1;s;t1;s;t5;s;x",
         "jobcounter s5,t,t,n,s0,t,n,s-2,t",
         "pool.stress 32 4000 3 3",
